@@ -19,6 +19,10 @@ type Job struct {
 	Unwind  int   // loop unwinding budget (per frame/block)
 	MaxStep int64 // instruction budget per path
 	MaxPath int   // path budget per job
+	// AbstractCRC replaces packet.CRC16 on symbolic input by an uninterpreted value (equal inputs => equal value).
+	// This over-approximates behaviour, so "holds" verdicts stay sound for properties that do not depend on CRC values;
+	// a job that reports a violation under the abstraction is re-run with the exact CRC before anything is reported.
+	AbstractCRC bool
 	Tag     string
 }
 
@@ -79,6 +83,9 @@ type JobResult struct {
 	Wall         time.Duration
 	Samples      []Tape // sampled feasible paths with a model, for translator validation
 	Recovered    int
+	NeedExact    bool // a violation under the CRC abstraction could not be turned into a model with real CRC values
+	Refined      bool // re-run with exact CRC after the abstraction reported a violation
+	AbstractCRC  int  // CRC16 calls replaced by an uninterpreted value
 	MaxTerms     int
 }
 
@@ -93,6 +100,19 @@ type RunOpts struct {
 
 // RunJob explores all paths of one harness instance.
 func (e *Engine) RunJob(job Job, sol *smt.Solver, opts RunOpts) *JobResult {
+	res := e.runJob(job, sol, opts)
+	if job.AbstractCRC && res.NeedExact {
+		exact := job
+		exact.AbstractCRC = false
+		r2 := e.runJob(exact, sol, opts)
+		r2.Wall += res.Wall
+		r2.Refined = true
+		return r2
+	}
+	return res
+}
+
+func (e *Engine) runJob(job Job, sol *smt.Solver, opts RunOpts) *JobResult {
 	t0 := time.Now()
 	res := &JobResult{Job: job, PathsByEnd: map[string]int{}, Covers: map[string]int{}, Asserts: map[string]int{}, Funcs: map[string]int{}}
 	fn := e.HarnessFunc(job.Harness)
@@ -101,7 +121,7 @@ func (e *Engine) RunJob(job Job, sol *smt.Solver, opts RunOpts) *JobResult {
 		return res
 	}
 	if job.Unwind == 0 {
-		job.Unwind = 400
+		job.Unwind = 20000
 	}
 	if job.MaxStep == 0 {
 		job.MaxStep = 20_000_000
@@ -111,17 +131,22 @@ func (e *Engine) RunJob(job Job, sol *smt.Solver, opts RunOpts) *JobResult {
 	}
 	rng := rand.New(rand.NewSource(opts.Seed ^ int64(len(job.Key()))*7919))
 	before := sol.St
-	work := [][]Decision{nil}
+	work := []Work{{}}
 	seenViol := map[string]int{}
 	seenKnown := map[string]bool{}
 	for len(work) > 0 {
-		prefix := work[len(work)-1]
+		item := work[len(work)-1]
 		work = work[:len(work)-1]
+		prefix := item.Prefix
 		if res.Paths >= job.MaxPath {
 			res.Inconclusive = append(res.Inconclusive, fmt.Sprintf("path budget %d exhausted", job.MaxPath))
 			break
 		}
 		x := e.newExec(sol, job, prefix, opts)
+		x.startModel = item.Model
+		if len(prefix) == 0 {
+			x.model = map[string]uint64{} // empty path condition: any assignment (all zeros) satisfies it
+		}
 		end := x.runHarness(fn)
 		res.Paths++
 		res.PathsByEnd[end.Status]++
@@ -129,6 +154,7 @@ func (e *Engine) RunJob(job Job, sol *smt.Solver, opts RunOpts) *JobResult {
 		res.Obligations += x.obligations
 		res.Trivial += x.trivAsserts
 		res.Recovered += len(x.recovered)
+		res.AbstractCRC += x.crcAbstracted
 		if n := x.ctx.NumTerms(); n > res.MaxTerms {
 			res.MaxTerms = n
 		}
@@ -152,6 +178,9 @@ func (e *Engine) RunJob(job Job, sol *smt.Solver, opts RunOpts) *JobResult {
 			res.Inconclusive = append(res.Inconclusive, "engine error: "+end.Detail)
 		}
 		res.Inconclusive = append(res.Inconclusive, x.inconcl...)
+		if x.needExact {
+			res.NeedExact = true
+		}
 		for _, v := range x.viol {
 			key := v.Kind + "|" + v.Label + "|" + v.Where
 			seenViol[key]++
@@ -170,8 +199,13 @@ func (e *Engine) RunJob(job Job, sol *smt.Solver, opts RunOpts) *JobResult {
 			res.Known = append(res.Known, KnownRec{Job: job.Key(), ID: k.ID, Tape: x.makeTape(job, k.Model, x.events, "known", k.ID, "")})
 		}
 		if end.Status == "ok" && opts.SampleEvery > 0 && len(x.known) == 0 && len(x.viol) == 0 && (len(res.Samples) == 0 || rng.Intn(opts.SampleEvery) == 0) && len(res.Samples) < 4 {
-			if r, m := x.check(nil, x.tapeVars()); r == smt.Sat {
-				res.Samples = append(res.Samples, x.makeTape(job, m, x.events, "validation", "", ""))
+			if r, m := x.check(nil, x.ctx.Vars); r == smt.Sat {
+				ne := x.needExact
+				m = x.refineCRC(nil, m) // abstract CRC values are replaced by real ones before the native run
+				x.needExact = ne
+				if m != nil {
+					res.Samples = append(res.Samples, x.makeTape(job, m, x.events, "validation", "", ""))
+				}
 			}
 		}
 		work = append(work, x.alts...)
@@ -179,7 +213,7 @@ func (e *Engine) RunJob(job Job, sol *smt.Solver, opts RunOpts) *JobResult {
 	after := sol.St
 	res.Solver = smt.Stats{Sat: after.Sat - before.Sat, Unsat: after.Unsat - before.Unsat, Unknown: after.Unknown - before.Unknown,
 		Errors: after.Errors - before.Errors, Time: after.Time - before.Time, CrossQueries: after.CrossQueries - before.CrossQueries,
-		CrossDisagree: after.CrossDisagree - before.CrossDisagree, MaxQuery: after.MaxQuery}
+		CrossDisagree: after.CrossDisagree - before.CrossDisagree, CrossNoVerdict: after.CrossNoVerdict - before.CrossNoVerdict, MaxQuery: after.MaxQuery}
 	if res.Solver.CrossDisagree > 0 {
 		res.Inconclusive = append(res.Inconclusive, fmt.Sprintf("solver cross-check disagreement: %v", after.CrossDetail))
 	}
@@ -191,7 +225,7 @@ func (e *Engine) newExec(sol *smt.Solver, job Job, prefix []Decision, opts RunOp
 	sol.Reset()
 	x := &Exec{eng: e, ctx: term.NewCtx(), sol: sol, prefix: prefix, params: job.Params, openKnown: opts.OpenKnown,
 		globals: map[*ssa.Global]*Cell{}, funcs: map[string]int{}, side: map[*Cell]interface{}{}, unwind: job.Unwind, maxStep: job.MaxStep,
-		mutexHeld: map[*Cell]int{}, initDone: map[*ssa.Package]bool{}, opaque: map[string]Value{}}
+		mutexHeld: map[*Cell]int{}, initDone: map[*ssa.Package]bool{}, opaque: map[string]Value{}, abstractCRC: job.AbstractCRC}
 	return x
 }
 
@@ -207,9 +241,14 @@ func (x *Exec) runHarness(fn *ssa.Function) (end pathEnd) {
 			end = p
 		case *goPanic:
 			// a Go panic escaped the harness: a violation of "never panics" with a model of the path
-			res, m := x.check(nil, x.tapeVars())
+			res, m := x.check(nil, x.ctx.Vars)
 			if res == smt.Sat {
+				m = x.refineCRC(nil, m)
+			}
+			if res == smt.Sat && m != nil {
 				x.viol = append(x.viol, Violation{Kind: "panic", Label: p.Msg, Model: m, Where: p.Msg, Events: append([]Event(nil), x.events...)})
+			} else if res == smt.Sat {
+				// only spurious (CRC-inconsistent) witnesses found under the abstraction
 			} else {
 				x.inconcl = append(x.inconcl, "panic path without model: "+p.Msg)
 			}
